@@ -22,6 +22,7 @@ package main
 //              | for _, v := range xs { Stmt* }
 //              | for i := int64(0); i < n; i++ { Stmt* }
 //              | c := e ; for Cond(c) { Stmt* ; c += e' }            -- the cursor loop of Range (fuel parameter)
+//   (float64 parameters and `1.0` literals are read as integers: RangeWithStep is tied for integral bounds and steps)
 //   Expr     ::= identifier | cb()                                    -- a user callback without arguments: hoisted into `call`
 //
 // `int64` parameters and locals are `Int` (a counted loop bound is `Nat`: the guard `count < 0 → panic` is required).
@@ -47,9 +48,10 @@ type ggEnv struct {
 	binds map[string]string
 	fuel  bool
 	nCall int
+	pos   []string // parameters guarded by `p <= 0 → panic`
 }
 
-var ggOps = []string{"Of", "Start", "Range", "Repeat", "FromSlice", "Empty", "Throw"}
+var ggOps = []string{"Of", "Start", "Range", "RangeWithStep", "Repeat", "FromSlice", "Empty", "Throw"}
 
 func (e *ggEnv) expr(x ast.Expr) (string, []string) {
 	switch v := x.(type) {
@@ -63,6 +65,9 @@ func (e *ggEnv) expr(x ast.Expr) (string, []string) {
 	case *ast.BasicLit:
 		if v.Kind == token.INT {
 			return v.Value, nil
+		}
+		if v.Kind == token.FLOAT && strings.HasSuffix(v.Value, ".0") { // 1.0: float64 parameters are read as integers (header)
+			return strings.TrimSuffix(v.Value, ".0"), nil
 		}
 	case *ast.UnaryExpr:
 		if v.Op == token.SUB {
@@ -237,7 +242,7 @@ func ggType(e ast.Expr) string {
 	switch x := e.(type) {
 	case *ast.Ident:
 		switch x.Name {
-		case "int64", "int":
+		case "int64", "int", "float64": // float64: integral values only (the harness passes integers; float arithmetic on them is exact)
 			return "Int"
 		case "error":
 			return "Err"
@@ -271,7 +276,7 @@ func ggTranslate(fd *ast.FuncDecl) string {
 	elem := "α"
 	if fd.Type.Results != nil && len(fd.Type.Results.List) == 1 {
 		if ix, ok := fd.Type.Results.List[0].Type.(*ast.IndexExpr); ok {
-			if id, ok := ix.Index.(*ast.Ident); ok && id.Name == "int64" {
+			if id, ok := ix.Index.(*ast.Ident); ok && (id.Name == "int64" || id.Name == "float64") {
 				elem = "Int"
 			}
 		}
@@ -313,13 +318,17 @@ func ggTranslate(fd *ast.FuncDecl) string {
 						ggPanic("guard at line %d", line(cur.Pos()))
 					}
 					be, ok := cur.Cond.(*ast.BinaryExpr)
-					if !ok || be.Op != token.LSS {
-						ggPanic("panic guard at line %d is not `p < 0`", line(cur.Pos()))
+					if !ok || (be.Op != token.LSS && be.Op != token.LEQ) {
+						ggPanic("panic guard at line %d is not `p < 0` / `p <= 0`", line(cur.Pos()))
 					}
 					if lit, ok := be.Y.(*ast.BasicLit); !ok || lit.Value != "0" {
-						ggPanic("panic guard at line %d is not `p < 0`", line(cur.Pos()))
+						ggPanic("panic guard at line %d is not `p < 0` / `p <= 0`", line(cur.Pos()))
 					}
-					e.nats[be.X.(*ast.Ident).Name] = true
+					if be.Op == token.LSS {
+						e.nats[be.X.(*ast.Ident).Name] = true
+					} else {
+						e.pos = append(e.pos, be.X.(*ast.Ident).Name) // a precondition of the equality theorem (0 < p); the parameter stays Int
+					}
 				case *ast.ReturnStmt: // return Empty[T]()
 					ok := false
 					if len(s.Results) == 1 {
@@ -400,7 +409,11 @@ func ggTranslate(fd *ast.FuncDecl) string {
 	}
 	name := strings.ToLower(fd.Name.Name[:1]) + fd.Name.Name[1:] + "G"
 	var sb strings.Builder
-	sb.WriteString(fmt.Sprintf("/-- operator_creation.go:%d -/\ndef %s%s : Gen %s :=\n", line(fd.Pos()), name, sig, elem))
+	pre2 := ""
+	if len(e.pos) > 0 {
+		pre2 = " (the constructor panics unless 0 < " + strings.Join(e.pos, ", 0 < ") + ")"
+	}
+	sb.WriteString(fmt.Sprintf("/-- operator_creation.go:%d%s -/\ndef %s%s : Gen %s :=\n", line(fd.Pos()), pre2, name, sig, elem))
 	for _, p := range pre {
 		sb.WriteString("  " + p + "\n")
 	}
